@@ -398,6 +398,22 @@ def scenario_inject(ctx, seed, n, spec_idx, ks, ref_cache, stats, reqs):
         ctx.case(("inject", spec.name, seed, k))
 
 
+PARSER_PREFIX = ("(set-logic QF_LIA)(define-fun lim () Int 5)(define-fun inc ((k Int)) Int (+ k 1))"
+                 "(define-sort MyInt () Int)(declare-fun cst () MyInt)(declare-fun flag () Bool)")
+PARSER_IMMEDIATE = [
+    "(assert (> lim 0))",                                                # a 0-ary definition of the failed script
+    "(declare-fun yy () Int)(assert (> (inc yy) 0))",                    # a definition with parameters
+    "(declare-fun kk () MyInt)(assert (= kk 1))",                        # a defined sort
+    "(assert (and flag (> cst 0)))",                                     # declarations
+    "(declare-fun yy () Int)(assert (let ((lim 1) (yy lim)) (= yy 1)))", # let shadowing the stale definition
+    "(declare-fun yy () Int)(assert (forall ((lim Int)) (> lim yy)))",   # quantifier shadowing it
+    "(declare-fun yy () Int)(assert (exists ((flag Bool)) (and flag (> yy 0))))",
+    "(declare-fun rr () Real)(assert (> rr 5))",                         # the literal 5 was read as an Int before
+    "(declare-fun yy () Int)(assert (> yy 5))(check-sat)",               # no set-logic here
+    "(define-fun lim () Int 7)(assert (> lim 6))",                       # re-definition
+]
+
+
 def scenario_parser(ctx, seed, n, ref_cache, stats):
     """failing get_script on a parser object, then the probe sequence re-parses with the same object"""
     env, fam = make_env(seed, n)
@@ -417,12 +433,30 @@ def scenario_parser(ctx, seed, n, ref_cache, stats):
         ("parser:bad-sort", "(declare-sort S 0)(declare-fun s () S)" + decl + "(assert (= s x))"),
     ]
     kind, text = bads[rng.randrange(len(bads))]
+    # the successfully read prefix of the failing script defines / declares names, a sort and the logic
+    text = PARSER_PREFIX + text
     k, v = outcome(lambda: parser.get_script(io.StringIO(text)))
     if k != "exc":
         ctx.case(None)
         ctx.count("parser-did-not-raise")
         return
     ctx.count("fail:parser")
+    # probes on the parser object right after the failure (the failing script is read again before each of them):
+    # names defined / declared by the failed script, shadowed by binders, literals it cached, its set-logic
+    def read_cmds(pr, t):
+        sc = pr.get_script(io.StringIO(t))
+        return [(c.name, W.result_key(list(c.args), ac=False)) for c in sc.commands]
+    tenv, tfam = make_env(seed, n)
+    for pi, ptext in enumerate(PARSER_IMMEDIATE):
+        outcome(lambda: parser.get_script(io.StringIO(text)))
+        got = outcome(lambda: read_cmds(parser, ptext))
+        want = outcome(lambda: read_cmds(SmtLibParser(tenv), ptext))
+        if got != want:
+            ctx.report_s({"fail": "parser", "call": kind, "oracle": "probe-differs", "probe": "parser-immediate"},
+                         "parser object: right after the failing script %s, the script %s gives %s; on a new parser "
+                         "of an untouched twin %s" % (text[:120], ptext, str(got)[:120], str(want)[:120]),
+                         {"fail": kind, "seed": seed, "n": n, "text": text, "probe_text": ptext})
+            break
     judge(ctx, env, fam, ref, {"fail": kind, "seed": seed, "n": n, "text": text}, {"fail": "parser", "call": kind},
           stats, parser=parser)
     ctx.case(("parser", kind, seed))
@@ -521,6 +555,106 @@ def scenario_commands(ctx, idx, stats):
 
 
 # ----------------------------------------------------------------------------------------------
+# solver objects: the real SmtLibSolver driving the strict reference solver process of C17
+# ----------------------------------------------------------------------------------------------
+SOLVER_FAILS = ["decl-rejected-bv8", "decl-rejected-fun", "assert-rejected", "unknown-answer",
+                "assert-rejected-new-symbol", "decl-rejected-bv8-again"]
+
+
+def solver_run(fail, with_fail):
+    """one solver object: prelude, (failing call), probes -> list of outcomes"""
+    import os
+    from pysmt.logics import QF_AUFBVLIRA
+    env = Environment()
+    m = env.formula_manager
+    here = os.path.dirname(os.path.dirname(os.path.abspath(__file__)))
+    env.factory.add_generic_solver("c15ref", [sys.executable, "-S", "-E", "-B", os.path.join(here, "refsolver.py"),
+                                              "--int-range", "3", "--usize", "3"], [QF_AUFBVLIRA])
+    INT = types.INT
+    x, y = m.Symbol("x", INT), m.Symbol("y", INT)
+    v2, v8 = m.Symbol("v2", types.BVType(2)), m.Symbol("v8", types.BVType(8))
+    vnew = m.Symbol("vnew", types.BVType(3))
+    f = m.Symbol("f", types.FunctionType(INT, [INT]))
+    ub = m.Symbol("UNKNOWNb", types.BOOL)
+    s = env.factory.Solver(name="c15ref", logic=QF_AUFBVLIRA)
+    out = []
+
+    def do(name, th):
+        k, v = outcome(th)
+        out.append((name, k, v if k == "exc" else str(v)))
+        return k
+    try:
+        s.add_assertion(m.GT(x, m.Int(0)))
+        s.add_assertion(m.BVULT(v2, m.BV(3, 2)))
+        s.solve()
+        fails = {
+            "decl-rejected-bv8": lambda: s.add_assertion(m.And(m.GT(x, m.Int(1)), m.BVULT(v8, m.BV(3, 8)))),
+            "decl-rejected-bv8-again": lambda: s.add_assertion(m.BVULT(v8, m.BV(3, 8))),
+            "decl-rejected-fun": lambda: s.add_assertion(m.Equals(m.Function(f, [x]), x)),
+            "assert-rejected": lambda: s.add_assertion(m.Equals(m.BVToNatural(v2), x)),
+            "assert-rejected-new-symbol": lambda: s.add_assertion(m.Equals(m.BVToNatural(vnew), x)),
+        }
+        if fail == "unknown-answer":
+            s.push()
+            s.add_assertion(ub)
+            if with_fail:
+                if outcome(s.solve)[0] != "exc":
+                    return None
+            do("pop", lambda: s.pop())
+        elif with_fail:
+            if outcome(fails[fail])[0] != "exc":
+                return None
+        model = lambda: sorted((str(k), str(v)) for k, v in s.get_model())
+        do("solve", s.solve)
+        do("get_model", model)
+        do("get_value", lambda: s.get_value(x))
+        do("assert_more", lambda: s.add_assertion(m.LT(x, m.Int(3))))
+        do("solve2", s.solve)
+        do("push", lambda: s.push())
+        do("assert_neg", lambda: s.add_assertion(m.LT(x, m.Int(0))))
+        do("solve3", s.solve)
+        do("pop", lambda: s.pop())
+        do("solve4", s.solve)
+        do("get_model2", model)
+        do("new_symbol", lambda: s.add_assertion(m.GT(y, x)))
+        do("solve5", s.solve)
+        do("get_model3", model)
+        if fail.startswith("decl-rejected-bv8"):
+            # the rejected symbol again: must be rejected exactly as on a solver that never saw it
+            do("same_symbol_again", lambda: s.add_assertion(m.BVULT(v8, m.BV(1, 8))))
+            do("get_model4", model)
+        return out
+    finally:
+        try:
+            s.exit()
+        except Exception:     # noqa
+            pass
+
+
+def scenario_solver(ctx, idx, stats):
+    fail = SOLVER_FAILS[idx % len(SOLVER_FAILS)]
+    try:
+        got, ref = solver_run(fail, True), solver_run(fail, False)
+    except Exception as e:      # noqa  (the reference solver process could not be started)
+        ctx.count("solver-infra-skip")
+        ctx.extra["solver_stream_error"] = repr(e)[:200]
+        return
+    if got is None:
+        ctx.case(None)
+        ctx.count("solver-fail-did-not-raise")
+        return
+    ctx.count("fail:solver")
+    ctx.case(("solver", fail))
+    for g, r in zip(got, ref):
+        if g != r:
+            ctx.report_s({"oracle": "solver-object", "fail": fail, "probe": g[0].rstrip("0123456789")},
+                         "solver object: after the failing call %s the probe %s gives %s; on a twin solver that did "
+                         "not make the failing call %s" % (fail, g[0], str(g[1:])[:120], str(r[1:])[:120]),
+                         {"fail": "solver:" + fail})
+            break
+
+
+# ----------------------------------------------------------------------------------------------
 def generic_sequences(ctx, rng, count, reqs_generic):
     """HashWalker op sequences with faults (walkers/dag.py itself): model predicts everything incl. results"""
     for _ in range(count):
@@ -556,6 +690,9 @@ def run(ctx):
         scenario_parser(ctx, seed, n, ref_cache, stats)
     for i in range(len(COMMAND_SEQS)):
         scenario_commands(ctx, i, stats)
+    # 2b. solver objects
+    for i in range(len(SOLVER_FAILS)):
+        scenario_solver(ctx, i, stats)
     # 3. injection at the k-th callback: exhaustive in k for small pools, sampled for the others
     nspec = len(walker_specs())
     exhaustive_pool = (rng.randrange(10 ** 9), 6)
@@ -621,6 +758,9 @@ def replay(ctx, rep):
     stats = {"ac_fallback": 0}
     ref_cache = {}
     fail = r.get("fail", "")
+    if fail.startswith("solver:"):
+        scenario_solver(ctx, SOLVER_FAILS.index(fail.split(":", 1)[1]), stats)
+        return
     if fail.startswith("commands:"):
         names = [c[0] for c in COMMAND_SEQS]
         scenario_commands(ctx, names.index(fail.split(":", 1)[1]), stats)
